@@ -164,6 +164,8 @@ def c12_3(c: Ctx) -> None:
                     bad.append(f'include: forwarded as {U(v)[:60]}')
             elif U(v) != f:
                 bad.append(f'{f}: forwarded as {U(v)[:40]}')
+        if name.startswith('event_results_flat') and not isinstance(q.kw(call, 'include'), ast.Lambda):
+            bad.append('include: the dict/list shape test is not conjoined to the include filter (raise_if_none would be judged over results of the wrong shape)')
         if bad:
             c.fail(u, f'flag forwarding: {"; ".join(bad)}', f'{name} does not honour its flags exactly: ' + '; '.join(bad), node=call)
         else:
@@ -181,6 +183,13 @@ def c12_3(c: Ctx) -> None:
             c.ok(where(u), f'{name}: value built by iterating {rv}.{call_name(iters[0])}() in order, nothing filtered')
         else:
             c.fail(u, f'{name}: value not built by plain iteration of the filtered results', f'{name} drops, invents or reorders values', node=st)
+        # the merge loops of the views drop nothing except empty containers
+        for lp in [n for n in own_nodes(u.node) if isinstance(n, ast.For)]:
+            var = lp.target.id if isinstance(lp.target, ast.Name) else None
+            for st_ in ast.walk(lp):
+                if isinstance(st_, ast.If) and any(isinstance(b, (ast.Continue, ast.Break)) for b in st_.body):
+                    if not (var and U(st_.test) == f'not {var}.result'):
+                        c.fail(u, f'{name}: merge loop skips results under `{U(st_.test)[:60]}`', f'{name} silently drops results that passed the filter', node=st_)
         idx = [n for n in own_nodes(u.node) if isinstance(n, ast.Subscript) and isinstance(n.slice, ast.Constant) and isinstance(n.slice.value, int)]
         if name == 'event_result':
             if idx and all(n.slice.value == 0 for n in idx):
